@@ -59,6 +59,17 @@ const TITLES: &[&str] = &[
     "text (glob)",
     "- list",
     "trailing blanks  ",
+    // non-ASCII at every byte offset of the indentation width
+    "世界 title",
+    "→ arrow",
+    "aé",
+    " é after one blank",
+    "1€ item",
+    "€",
+    "é",
+    "🙂 emoji title",
+    "Élan",
+    "\u{a0}\u{a0}$ indented with no-break spaces",
 ];
 const BODY: &[&str] = &[
     "plain output",
@@ -79,6 +90,9 @@ const BODY: &[&str] = &[
     "ünï 世界",
     "\tTAB inside",
     "a\\*b (glob)",
+    "世",
+    "→x (glob)",
+    " é",
 ];
 const CMDS: &[&str] = &["echo hello", "cat <<EOF", "printf 'a\\nb'", "true", "echo '  $ x'", "ls  ", "echo \"# no comment\"", ""];
 const CONT: &[&str] = &["arg", "EOF", "  indented", "| sort", "> nested angle"];
@@ -300,6 +314,7 @@ pub struct SoupCase {
 const SOUP: &[&str] = &[
     "  $ cmd", "  > cont", "  out", "  ", " ", "", "title", "# c", "  [1]", "  [2]", "  x (re)", "  ( (re)",
     "  \\x (esc)", "   $ three", " $ one", "$ zero", "  $", "  $  two blanks", "\t$ tab", "  > ", "  é (glob)", "  ()",
+    "世", " é", "aé", "€", " 世 $ x", "  世", "\u{a0}\u{a0}$ nbsp", "\u{2003}$ em space",
 ];
 
 fn check_soup(c: &SoupCase) -> V {
@@ -366,12 +381,21 @@ pub fn property() -> Property {
             }),
             Box::new(PropPart::<SoupCase> {
                 name: "soup",
-                rule: "arbitrary sequences of Cram-like lines (wrong indentation, malformed expressions, stray continuations): no crash; if accepted, line numbers point at `  $ ` lines, commands and expectations are indented lines of the document. Non-trivial: >=3 lines",
+                rule: "arbitrary sequences of Cram-like lines (wrong indentation, malformed expressions, stray continuations, one line in four an indentation followed by random Unicode text): no crash; if accepted, line numbers point at `  $ ` lines, commands and expectations are indented lines of the document. Non-trivial: >=3 lines",
                 quick: 60_000,
                 thorough: 2_000_000,
                 max_workers: 0,
                 strategy: Box::new(|_| {
-                    vec(proptest::sample::select(SOUP.to_vec()).prop_map(String::from), 0..10)
+                    // three quarters from the pool, one quarter an indentation plus arbitrary
+                    // printable Unicode text (characters of every UTF-8 width at every offset)
+                    vec(
+                        prop_oneof![
+                            3 => proptest::sample::select(SOUP.to_vec()).prop_map(String::from),
+                            1 => (proptest::sample::select(vec!["", " ", "  ", "   ", "  $ ", "  > ", "\t"]), "\\PC{0,6}")
+                                .prop_map(|(indent, text)| format!("{indent}{}", text.replace(['\n', '\r'], ""))),
+                        ],
+                        0..10,
+                    )
                         .prop_map(|lines| SoupCase { lines })
                         .boxed()
                 }),
